@@ -38,7 +38,7 @@ var seqChecks = map[string]seqCheck{
 	"C12": {families: []string{"del"}},
 	"C13": {families: []string{"core", "cfg", "roll", "inputs"}, pre: runCodecx},
 	"C15": {families: []string{"trim"}},
-	"C16": {families: []string{"kv"}},
+	"C16": {families: []string{"kv", "kv-rx"}},
 	"C17": {families: []string{"versions"}},
 	"C20": {families: []string{"backup"}},
 }
@@ -536,7 +536,6 @@ func runSched(prop, tier string) int {
 	}
 	total := struct{ execs, pruned, states, ops, outcomes, noncolliding, exhausted int }{}
 	boundHist := map[string]int{}
-	deadline := time.Now().Add(tierBudget(tier))
 	handle := func(phase string, t schedx.Task, raw json.RawMessage, err error, announce string) {
 		if err != nil {
 			var de *eng.DiedError
@@ -583,12 +582,23 @@ func runSched(prop, tier string) int {
 			if res.Exhausted {
 				total.exhausted++
 			} else {
-				r.Cap(fmt.Sprintf("%s: execution budget hit after %d executions (completed preemption bound %d)", t.Prog, res.Executions, res.BoundDone))
+				what := "execution budget"
+				if res.TimedOut {
+					what = "time budget of the tier"
+				}
+				r.Cap(fmt.Sprintf("%s: %s hit after %d executions (completed preemption bound %d)", t.Prog, what, res.Executions, res.BoundDone))
 			}
 			boundHist[fmt.Sprintf("threads=%d bound_completed=%d", len(t.Prog.Threads), res.BoundDone)]++
 			if len(r.Samples) < 6 && res.SampleChoice != nil {
 				r.Samples = append(r.Samples, map[string]any{"program": t.Prog.String(), "schedule_choices": res.SampleChoice, "executions": res.Executions, "pruned": res.Pruned, "distinct_outcomes": res.Outcomes, "max_scheduling_points": res.MaxPoints})
 			}
+		}
+		if phase == "race" && !res.Exhausted {
+			what := "execution budget"
+			if res.TimedOut {
+				what = "time budget of the tier"
+			}
+			r.Cap(fmt.Sprintf("race build, %s: %s hit after %d executions (completed preemption bound %d)", t.Prog, what, res.Executions, res.BoundDone))
 		}
 		for _, f := range res.Findings {
 			if f.Kind == "nondeterminism" {
@@ -617,9 +627,19 @@ func runSched(prop, tier string) int {
 		if p.Block {
 			free = 0 // a free-running waiter that is never woken would block for real
 		}
-		tasks = append(tasks, mk(p, b, free, ""))
+		t := mk(p, b, free, "")
+		if tier == "thorough" {
+			// the quick tier's bounds are always completed; deeper ones until the tier's time budget is used up
+			t.Deadline, t.MinBound = time.Now().Add(tierBudget(tier)).Unix(), 3
+			if p.IsTriple() {
+				t.MinBound = 2
+			}
+			if len(p.Threads) >= 5 {
+				t.MinBound = 1
+			}
+		}
+		tasks = append(tasks, t)
 	}
-	_ = deadline
 	eng.Map(pool, tasks, func(i int, raw json.RawMessage, err error) { handle("explore", tasks[i], raw, err, "") })
 	pool.Close()
 	// phase 2: the same explorer built with -race: data-race freedom on every explored schedule
@@ -641,6 +661,9 @@ func runSched(prop, tier string) int {
 			}
 			t := mk(p, raceBound, 0, fmt.Sprintf("%s/a%d", dir, i))
 			t.Budget = budget / 10
+			if tier == "thorough" {
+				t.Deadline, t.MinBound = time.Now().Add(tierBudget(tier)).Unix(), 1
+			}
 			rtasks = append(rtasks, t)
 		}
 		before := total.execs
